@@ -5,7 +5,7 @@ driven through the public API by mon.oracles.simreplay with the same split and p
 predictions must be equal, and the reported expectations too for policies whose expectations are
 deterministic.  The split itself is cross-checked against an independent computation.
 
-As built: Half of the simulations with contexts run under the guarded source hook MABWISER_VERIF_GB_SCALE, which makes the simulator process test rows / batches in chunks of 1-5 rows (the > 1 GB regime); the replay then applies the per-step protocol per chunk. The thorough tier adds one genuine > 1 GB simulation (102000 rows). Neighbourhood bandits may share a metric (shared distance cache) and carry no_nhood_prob_of_arm. A quarter of the Radius / KNearest / LSHNearest bandits of a simulation use 2-4 worker threads (the simulation then runs with the GIL handed over every microsecond); labels include large integral floats; radii sit exactly on, or a hair below, a row-to-row distance. A quarter of the Radius / KNearest bandits use the standardised euclidean metric; test sizes include values for which 1 - test_size is inexact in binary (0.8, 0.9, 0.55, 0.15, 0.2) with row counts that make n * test_size whole.
+As built: Half of the simulations with contexts run under the guarded source hook MABWISER_VERIF_GB_SCALE, which makes the simulator process test rows / batches in chunks of 1-5 rows (the > 1 GB regime); the replay then applies the per-step protocol per chunk. The thorough tier adds one genuine > 1 GB simulation (102000 rows). Neighbourhood bandits may share a metric (shared distance cache) and carry no_nhood_prob_of_arm. A quarter of the Radius / KNearest / LSHNearest bandits of a simulation use 2-4 worker threads (the simulation then runs with the GIL handed over every microsecond); labels include large integral floats; radii sit exactly on, or a hair below, a row-to-row distance. A quarter of the Radius / KNearest bandits use the standardised euclidean metric; test sizes include values for which 1 - test_size is inexact in binary (0.8, 0.9, 0.55, 0.15, 0.2) with row counts that make n * test_size whole. Round 8: a quarter of the simulations hand in bandits that were trained and queried before; half of the simulated Thompson bandits carry a binarizer; one simulation in eight is context-free only.
 """
 from mon import env  # noqa: F401
 import copy
